@@ -350,15 +350,21 @@ pub fn run_parent<E: Engine>(eng: &E, cfg: ParentCfg) -> i32 {
             }
         }
     };
-    let mut kids = Vec::new();
+    let mut kids = std::collections::VecDeque::new();
     for w in 0..cfg.workers {
-        kids.push(spawn_worker(w));
+        kids.push_back(spawn_worker(w));
     }
+    // A hang (watchdog) ends a worker at its first hanging case and hides whatever lies behind
+    // it.  When a wave of workers produced hangs but no failure, up to two further waves with
+    // fresh PRNG streams (worker ids + 1000, + 2000) look for a case in which the same defect
+    // shows as a wrong result before it shows as a hang.  Hangs stay inconclusive (exit 2).
+    let mut wave = 0u64;
+    let mut hangs_seen_by_wave = 0usize;
     let mut merged = Stats::default();
     let mut failures: Vec<Value> = Vec::new();
     let mut crashed: Vec<(u64, String)> = Vec::new();
     let mut hangs: Vec<(u64, String)> = Vec::new();
-    for (w, out, mut k) in kids {
+    while let Some((w, out, mut k)) = kids.pop_front() {
         let mut st = k.wait().expect("wait worker");
         if !out.exists() {
             // the worker died without a result (signal, abort, resource exhaustion).  Run its
@@ -419,6 +425,14 @@ pub fn run_parent<E: Engine>(eng: &E, cfg: ParentCfg) -> i32 {
                         "violations": [{"predicate": "worker_crash", "signature": format!("{}/worker_crash", cfg.prop), "detail": format!("{:?}", st)}],
                     }));
                 }
+            }
+        }
+        if kids.is_empty() && failures.is_empty() && hangs.len() > hangs_seen_by_wave && wave < 2 {
+            wave += 1;
+            let n = ((hangs.len() - hangs_seen_by_wave) as u64).min(cfg.workers);
+            hangs_seen_by_wave = hangs.len();
+            for w in 0..n {
+                kids.push_back(spawn_worker(1000 * wave + w));
             }
         }
     }
